@@ -78,6 +78,17 @@ CHECKS["C06"] = dict(
          "A failed lemma is reported only with a solver-found public history whose native close() allocates, creates a class, panics or does not terminate.",
     design_ref="§4 C06, §9")
 
+CHECKS["C15"] = dict(
+    technique="bounded inductive verification by SAT: enum invariant over new / every public mutator / prologue / one close_until iteration, and the real <enum>_case / <enum>_cases / new_<enum> functions executed symbolically under it",
+    text="For every corpus program with enum types the solver shows, for all states over the universe bound, that INV-enum (every allocated element "
+         "of an enum type is, modulo the current equalities, the value of a row of some constructor graph) holds after new() and is preserved by every "
+         "public mutator (so the API offers no call that creates an enum element other than through a constructor), by close_until's prologue and by "
+         "one arbitrary loop iteration; and that on a closed state satisfying it <enum>_case(el) reaches no unwrap on None, returns a constructor whose "
+         "application to the returned arguments equals el, every item of <enum>_cases does, and new_<enum>(c) followed by <enum>_cases contains c up to "
+         "equality. A failed lemma is reported only with a solver-found public history after which the native <enum>_case panics or disagrees. "
+         "The compile-time half (no rule may define a non-constructor term of enum type) is outside this claim.",
+    design_ref="§4 C15, §9")
+
 NOT_APPLICABLE = {
     "C02": "check not built yet (ghost-model soundness lemma planned, DESIGN.md §9)",
     "C03": "check not built yet (follows from C01 + C02 lemmas; idempotence lemma planned)",
